@@ -2817,6 +2817,8 @@ impl Value {
                     s.push('}');
                     s
                 }
+                // `[]` would be an empty array of numbers
+                Value::Complex(arr) if arr.data.is_empty() => "ℂ0[]".into(),
                 #[cfg(feature = "ga")]
                 value @ Value::Mv(_) => {
                     let mut s = "𝕍[".to_string();
